@@ -8,7 +8,9 @@ group  : {"sig": [[kind, name, default|null], ...],      kind 0..4 = positional-
 result : {"src": <def line>, "res": [{"real": ..., "insp": ..., "fa": ...}, ...]}
 
 All groups of one stdin are handled by ONE interpreter, in order (state that joblib keeps between calls is
-exercised).  Values travel as integer codes: an int stands for itself, -1 None, -2 False, -3 '', -4 (), -5 True.
+exercised).  Values travel as integer codes: an int stands for itself, -1 None, -2 False, -3 '', -4 (), -5 True,
+-10..-13 single objects whose ==/!= is non-standard (always True, always False, raising, array-like without truth
+value), -14 inspect.Parameter.empty; results are encoded back by identity.
 
 For every call three things are computed on the live interpreter / live joblib:
   real : the function is really CALLED (its body returns its parameters) -> dict | null (TypeError)
@@ -35,7 +37,57 @@ from joblib.func_inspect import filter_args
 PO, PK, VP, KO, VK = range(5)
 SELF_NAME = "s"
 SELF_VALUE = 999
+
+
+class EqAll(object):
+    """compares equal to everything (like unittest.mock.ANY)"""
+    def __eq__(self, other):
+        return True
+
+    def __ne__(self, other):
+        return False
+    __hash__ = object.__hash__
+
+
+class EqNone(object):
+    """compares unequal to everything, itself included (NaN-like)"""
+    def __eq__(self, other):
+        return False
+
+    def __ne__(self, other):
+        return True
+    __hash__ = object.__hash__
+
+
+class CmpRaises(object):
+    """comparisons raise"""
+    def __eq__(self, other):
+        raise RuntimeError("comparison refused")
+
+    def __ne__(self, other):
+        raise RuntimeError("comparison refused")
+    __hash__ = object.__hash__
+
+
+class _Ambiguous(object):
+    def __bool__(self):
+        raise ValueError("The truth value of an array with more than one element is ambiguous")
+
+
+class CmpElementwise(object):
+    """comparisons return an object without a truth value (array-like)"""
+    def __eq__(self, other):
+        return _Ambiguous()
+
+    def __ne__(self, other):
+        return _Ambiguous()
+    __hash__ = object.__hash__
+
+
+# values with a non-standard equality are single objects, always compared by IDENTITY here
+OBJECTS = {-10: EqAll(), -11: EqNone(), -12: CmpRaises(), -13: CmpElementwise(), -14: inspect.Parameter.empty}
 SPECIAL = {-1: None, -2: False, -3: "", -4: (), -5: True}
+SPECIAL.update(OBJECTS)
 
 
 def dec(c):
@@ -45,6 +97,9 @@ def dec(c):
 def enc(v, obj):
     if obj is not None and v is obj:
         return SELF_VALUE
+    for code, o in OBJECTS.items():
+        if v is o:
+            return code
     if v is None:
         return -1
     if v is False:
@@ -68,7 +123,7 @@ def src_of(sig, fname="f"):
             parts.append("*")
         s = {PO: nm, PK: nm, VP: "*" + nm, KO: nm, VK: "**" + nm}[k]
         if d is not None:
-            s += "=%r" % (dec(d),)
+            s += ("=_OBJ[%d]" % d) if d in OBJECTS else ("=%r" % (dec(d),))
         parts.append(s)
         if k == PO and (i + 1 == len(sig) or sig[i + 1][0] != PO):
             parts.append("/")
@@ -85,7 +140,7 @@ def full_sig(sig, meth):
 
 
 def plain_function(fsig, name):
-    ns = {}
+    ns = {"_OBJ": OBJECTS}
     src = src_of(fsig, name)
     exec(src, ns)
     return ns[name], src.splitlines()[0]
